@@ -65,11 +65,48 @@ pub struct Hist<'a> {
     pub spent_in_block: Vec<(Transaction, Vec<WCoin>)>,
     /// hashes of the stake transactions generated in this history
     pub stake_txs: Vec<TxHash>,
+    /// the header every sealed state of this history had when it was made
+    pub sealed_headers: Vec<(String, Header)>,
 }
 
 impl<'a> Hist<'a> {
     pub fn bump(&mut self, k: &str) {
         *self.stats.entry(k.to_string()).or_insert(0) += 1;
+    }
+
+    /// C07 / C03: a sealed state's header is a function of that state alone — read again at the end of the history,
+    /// after descendants, siblings and restored copies of the state have been made and sealed, it is the header the
+    /// state had when it was sealed, and its stake root is still the root of the state's own stake set
+    pub fn recheck_headers(&mut self) {
+        let recorded = std::mem::take(&mut self.sealed_headers);
+        if recorded.is_empty() {
+            return;
+        }
+        let mut same = true;
+        let mut stake_ok = true;
+        let mut which = String::new();
+        for (name, hdr) in recorded.iter() {
+            let Some(sealed) = self.w.sealed.get(name) else { continue };
+            let again = silent(|| sealed.header());
+            if again.as_ref().ok() != Some(hdr) {
+                same = false;
+                which = name.clone();
+            }
+            let stakes = sealed.raw_stakes();
+            let db = novasmt::Database::new(Cas::default());
+            let mut t = db.get_tree([0u8; 32]).unwrap();
+            for (k, v) in stakes.iter() {
+                t = t.with(tmelcrypt::hash_single(&stdcode::serialize(k).unwrap()).0, &stdcode::serialize(v).unwrap());
+            }
+            if let Ok(a) = &again {
+                if t.root_hash() != a.stakes_hash.0 {
+                    stake_ok = false;
+                    which = name.clone();
+                }
+            }
+        }
+        self.out.fact("C07", "header-read-again-later-is-the-same", same, &format!("sealed-states={} {}", recorded.len(), which));
+        self.out.fact("C07", "stake-root-read-again-later-is-the-stake-set", stake_ok, &format!("sealed-states={} {}", recorded.len(), which));
     }
 
     // ---------------------------------------------------------------- basic ops
@@ -360,6 +397,7 @@ impl<'a> Hist<'a> {
                     self.out.fact("C07", "stake-commitment-is-the-stake-set", ok, &format!("stakes={}", n));
                 }
                 self.out.fact("C07", "state-entries-provable", prov_ok, "");
+                self.sealed_headers.push((dst.clone(), hdr));
                 self.w.sealed.insert(dst.clone(), sealed);
                 self.bump(if action.is_some() { "op:seal-action" } else { "op:seal-none" });
                 Some(dst)
@@ -657,6 +695,38 @@ impl<'a> Hist<'a> {
                     self.w.names.reg_tx(&t);
                     self.bump("batch:spends-stake-output");
                     return (vec![t], format!("spends-stake-output-{}", c.id.index.min(1)));
+                }
+            }
+        }
+        // a coin whose covenant reads a field of the previous header is made and spent in the same block — in the first
+        // block of a chain there is no previous header and the header of this very block, sealed as it stands, is used
+        {
+            let p = self.parts(name);
+            if r.chance(1, if p.height.0 == 0 { 3 } else { 25 }) {
+                let coins_map = CoinMapping::new(p.coins.clone());
+                let wcoins = self.wallet.coins(&coins_map, &self.w.names);
+                let pools: SmtMapping<Cas, PoolKey, PoolState> = SmtMapping::new(p.pools.clone());
+                let known: Vec<PoolKey> = vec![];
+                let cx = Ctx { height: p.height.0, network: p.network, mult: p.fee_multiplier, coins: &wcoins, pools: &pools, known_pools: &known };
+                if let Some(mut a) = gen_normal(r, &mut self.wallet, &cx) {
+                    let field = *r.pick(&[9u8, 9, 6, 1, 4, 5]);
+                    let zero = r.chance(1, 3);
+                    let spec = CovSpec::HeaderField(field, zero);
+                    if !a.outputs.is_empty() {
+                        a.outputs[0].covhash = self.wallet.spec_addr(spec.clone());
+                        let ins: Vec<WCoin> = a.inputs.iter().filter_map(|c| wcoins.iter().find(|k| k.id == *c).cloned()).collect();
+                        sign(&self.wallet, &mut a, &ins);
+                        self.w.names.reg_tx(&a);
+                        let made = WCoin { id: a.output_coinid(0), cdh: CoinDataHeight { coin_data: a.outputs[0].clone(), height: p.height }, spec };
+                        let rest: Vec<WCoin> = wcoins.iter().filter(|c| !a.inputs.contains(&c.id)).cloned().collect();
+                        let cx2 = Ctx { height: p.height.0, network: p.network, mult: p.fee_multiplier, coins: &rest, pools: &pools, known_pools: &known };
+                        if let Some(b) = gen_spend_of(r, &mut self.wallet, &cx2, &made) {
+                            self.w.names.reg_tx(&b);
+                            self.bump("batch:spends-header-reading-coin");
+                            let v = if r.chance(1, 2) { vec![a, b] } else { vec![b, a] };
+                            return (v, format!("spends-header-reading-coin-field{}{}", field, if zero { "-is-zero" } else { "" }));
+                        }
+                    }
                 }
             }
         }
@@ -1127,29 +1197,26 @@ fn script_ergsym_before_tip902(h: &mut Hist, r: &mut Rng) {
     let Some(s1) = h.op_seal(&u1, None) else { return };
     let Some(u2) = h.op_next(&s1) else { return };
     u = u2;
-    // withdraw everything, a part, or nothing
+    // the only holder withdraws everything — before the activation (the emptied pool is still there when TIP-902 makes
+    // it a built-in one) or after it (the built-in pool is emptied by the withdrawals of a block whose pegging step
+    // then needs its price) — or nothing
     let liqc = h.w.sealed.get(&s1).unwrap().coin(dep.output_coinid(0));
+    let late = r.chance(1, 2);
+    let mut wd: Option<Transaction> = None;
     if let Some(liqc) = liqc {
-        let part = match r.below(4) {
-            0 => 0,
-            1 => liqc.coin_data.value.0 / 2,
-            _ => liqc.coin_data.value.0,
-        };
-        if part > 0 && liqc.coin_data.denom == key.liq_token_denom() {
+        if r.chance(3, 4) && liqc.coin_data.value.0 > 0 && liqc.coin_data.denom == key.liq_token_denom() {
             let liqw = WCoin { id: dep.output_coinid(0), cdh: liqc.clone(), spec: CovSpec::StdNew(0) };
-            let mut outs = vec![crate::txgen::out(a0, part, liqc.coin_data.denom)];
-            let whole = part == liqc.coin_data.value.0;
-            if !whole {
-                // a withdrawal request has one output only: split first in a real chain; here simply burn the rest
-                outs = vec![crate::txgen::out(a0, part, liqc.coin_data.denom)];
-            }
-            if whole {
-                let feec = wc[1].clone();
-                let wd = assemble(&h.wallet, TxKind::LiqWithdraw, &[feec.clone(), liqw], outs, feec.cdh.coin_data.value.0, key.to_bytes().to_vec());
-                h.w.names.reg_tx(&wd);
-                if let Some(u3) = h.op_batch(&u, &[wd], "t902:withdraw-everything") {
-                    u = u3;
-                }
+            let outs = vec![crate::txgen::out(a0, liqc.coin_data.value.0, liqc.coin_data.denom)];
+            let feec = wc[1].clone();
+            let t = assemble(&h.wallet, TxKind::LiqWithdraw, &[feec.clone(), liqw], outs, feec.cdh.coin_data.value.0, key.to_bytes().to_vec());
+            h.w.names.reg_tx(&t);
+            wd = Some(t);
+        }
+    }
+    if !late {
+        if let Some(t) = wd.take() {
+            if let Some(u3) = h.op_batch(&u, &[t], "t902:withdraw-everything") {
+                u = u3;
             }
         }
     }
@@ -1158,6 +1225,16 @@ fn script_ergsym_before_tip902(h: &mut Hist, r: &mut Rng) {
         let Some(s) = h.op_seal(&u, None) else { return };
         let Some(nu) = h.op_next(&s) else { return };
         u = nu;
+    }
+    if let Some(t) = wd.take() {
+        if let Some(u3) = h.op_batch(&u, &[t], "t902:withdraw-everything-after-activation") {
+            u = u3;
+        }
+        for _ in 0..2 {
+            let Some(s) = h.op_seal(&u, None) else { return };
+            let Some(nu) = h.op_next(&s) else { return };
+            u = nu;
+        }
     }
     h.bump("history:ergsym-before-tip902-script");
 }
@@ -1209,22 +1286,120 @@ fn script_big_block(h: &mut Hist, r: &mut Rng) {
     h.bump("history:big-block-script");
 }
 
+/// A scripted history with a transaction of more than 256 inputs (an input's position is a `u8` in a coin id and in
+/// the covenant environment, but a transaction may list any number of inputs): every input, wherever it stands, must
+/// exist, be approved by its covenant and count towards the balance.
+fn script_many_inputs(h: &mut Hist, r: &mut Rng) {
+    let at = h.wallet.spec_addr(CovSpec::AlwaysTrue);
+    let never = h.wallet.spec_addr(CovSpec::Never);
+    let cfg = GenesisConfig {
+        network: *r.pick(&[NetID::Custom02, NetID::Custom08, NetID::Testnet]),
+        init_coindata: crate::txgen::out(at, 1u128 << 60, Denom::Mel),
+        stakes: BTreeMap::new(),
+        init_fee_pool: CoinValue(0),
+        init_fee_multiplier: 0,
+    };
+    let u0 = h.op_genesis(cfg);
+    let height0 = h.parts(&u0).height;
+    // two transactions of 255 outputs each: 250 spendable by anyone + 4 that nobody can spend + the change
+    let mut free: Vec<WCoin> = vec![];
+    let mut locked: Vec<WCoin> = vec![];
+    let mut prev = WCoin { id: CoinID::zero_zero(), cdh: CoinDataHeight { coin_data: crate::txgen::out(at, 1u128 << 60, Denom::Mel), height: BlockHeight(0) }, spec: CovSpec::AlwaysTrue };
+    let mut u = u0;
+    for round in 0..2u8 {
+        let mut outs = vec![];
+        for _ in 0..250 {
+            outs.push(crate::txgen::out(at, 1000, Denom::Mel));
+        }
+        for _ in 0..4 {
+            outs.push(crate::txgen::out(never, 1000, Denom::Mel));
+        }
+        let rest = prev.cdh.coin_data.value.0 - 254 * 1000;
+        outs.push(crate::txgen::out(at, rest, Denom::Mel));
+        let tx = assemble(&h.wallet, TxKind::Normal, &[prev.clone()], outs, 0, vec![round]);
+        h.w.names.reg_tx(&tx);
+        for i in 0..250u8 {
+            free.push(WCoin { id: tx.output_coinid(i), cdh: CoinDataHeight { coin_data: tx.outputs[i as usize].clone(), height: height0 }, spec: CovSpec::AlwaysTrue });
+        }
+        for i in 250..254u8 {
+            locked.push(WCoin { id: tx.output_coinid(i), cdh: CoinDataHeight { coin_data: tx.outputs[i as usize].clone(), height: height0 }, spec: CovSpec::Never });
+        }
+        prev = WCoin { id: tx.output_coinid(254), cdh: CoinDataHeight { coin_data: tx.outputs[254].clone(), height: height0 }, spec: CovSpec::AlwaysTrue };
+        match h.op_batch(&u, &[tx], "many-inputs:fan-out") {
+            Some(nu) => u = nu,
+            None => return,
+        }
+    }
+    // sometimes the spending happens in a later block
+    if r.chance(1, 2) {
+        let Some(s) = h.op_seal(&u, None) else { return };
+        let Some(nu) = h.op_next(&s) else { return };
+        u = nu;
+    }
+    let n = 257 + r.below(120) as usize;
+    let pay = |ins: &[WCoin], skip_from: usize| -> Vec<CoinData> {
+        // one output carrying the value of the inputs before position `skip_from`
+        let v: u128 = ins.iter().take(skip_from).map(|c| c.cdh.coin_data.value.0).sum();
+        vec![crate::txgen::out(at, v, Denom::Mel)]
+    };
+    // (a) all approved, all counted
+    let ins: Vec<WCoin> = free.iter().take(n).cloned().collect();
+    let ok_tx = assemble(&h.wallet, TxKind::Normal, &ins, pay(&ins, n), 0, vec![1]);
+    // (b) a coin nobody may spend, at a position beyond 255 (and, as a control, at a position below)
+    let pos_hi = 256 + r.below((n - 256) as u64) as usize;
+    let pos_lo = r.below(256) as usize;
+    let mut variants: Vec<(Transaction, String)> = vec![(ok_tx, "many-inputs:all-approved".into())];
+    for (pos, label) in [(pos_hi, "many-inputs:unapproved-input-beyond-255"), (pos_lo, "many-inputs:unapproved-input-below-256")] {
+        let mut ins: Vec<WCoin> = free.iter().take(n).cloned().collect();
+        ins[pos] = locked[r.below(locked.len() as u64) as usize].clone();
+        let tx = assemble(&h.wallet, TxKind::Normal, &ins, pay(&ins, n), 0, vec![2, pos as u8]);
+        variants.push((tx, label.into()));
+    }
+    // (c) the outputs are worth the first 256 inputs only: the rest of the inputs would be burnt
+    let ins: Vec<WCoin> = free.iter().take(n).cloned().collect();
+    variants.push((assemble(&h.wallet, TxKind::Normal, &ins, pay(&ins, 256), 0, vec![3]), "many-inputs:inputs-beyond-255-not-paid-out".into()));
+    // (d) a coin that does not exist at a position beyond 255
+    let mut ins: Vec<WCoin> = free.iter().take(n).cloned().collect();
+    ins[pos_hi].id = CoinID::new(TxHash(tmelcrypt::hash_single(b"no such transaction")), 0);
+    variants.push((assemble(&h.wallet, TxKind::Normal, &ins, pay(&ins, n), 0, vec![4]), "many-inputs:missing-coin-beyond-255".into()));
+    // (e) the same coin twice, the second time beyond 255
+    let mut ins: Vec<WCoin> = free.iter().take(n).cloned().collect();
+    ins[pos_hi] = ins[pos_lo].clone();
+    variants.push((assemble(&h.wallet, TxKind::Normal, &ins, pay(&ins, n), 0, vec![5]), "many-inputs:same-coin-twice-second-beyond-255".into()));
+    for (tx, label) in &variants {
+        h.w.names.reg_tx(tx);
+        let _ = h.op_batch(&u, &[tx.clone()], label);
+    }
+    // and the honest one goes into a block
+    if let Some(nu) = h.op_batch(&u, &[variants[0].0.clone()], "many-inputs:all-approved") {
+        let _ = h.op_seal(&nu, None);
+    }
+    h.bump("history:many-inputs-script");
+}
+
 /// one history
 pub fn history(r: &mut Rng, w: &mut World, out: &mut Out, em: &Emphasis, stats: &mut BTreeMap<String, u64>) {
-    let mut h = Hist { w, wallet: Wallet::new(), out, stats: BTreeMap::new(), faucets_seen: vec![], pending_spenders: vec![], spent_in_block: vec![], stake_txs: vec![] };
+    let mut h = Hist { w, wallet: Wallet::new(), out, stats: BTreeMap::new(), faucets_seen: vec![], pending_spenders: vec![], spent_in_block: vec![], stake_txs: vec![], sealed_headers: vec![] };
+    history_body(&mut h, r, em);
+    h.recheck_headers();
+    merge(stats, &h.stats);
+}
+
+fn history_body(h: &mut Hist, r: &mut Rng, em: &Emphasis) {
     if em.pool_ops >= 10 && r.chance(1, 16) {
-        script_liquidity_ceiling(&mut h, r);
-        merge(stats, &h.stats);
+        script_liquidity_ceiling(h, r);
         return;
     }
     if em.tip_edges > 0 && r.chance(1, 20) {
-        script_ergsym_before_tip902(&mut h, r);
-        merge(stats, &h.stats);
+        script_ergsym_before_tip902(h, r);
         return;
     }
     if em.chain_ops && r.chance(1, 40) {
-        script_big_block(&mut h, r);
-        merge(stats, &h.stats);
+        script_big_block(h, r);
+        return;
+    }
+    if em.mutate > 0 && r.chance(1, 50) {
+        script_many_inputs(h, r);
         return;
     }
     // starting point
@@ -1243,7 +1418,6 @@ pub fn history(r: &mut Rng, w: &mut World, out: &mut Out, em: &Emphasis, stats: 
                 unsealed = u;
             }
             None => {
-                merge(stats, &h.stats);
                 return;
             }
         }
@@ -1294,7 +1468,7 @@ pub fn history(r: &mut Rng, w: &mut World, out: &mut Out, em: &Emphasis, stats: 
                         NetID::Testnet => pp.height.0 + 1 >= 500,
                         _ => true,
                     };
-                    let label = mutate_block(r, &mut m, &mut h, pp.fee_multiplier, tip901);
+                    let label = mutate_block(r, &mut m, h, pp.fee_multiplier, tip901);
                     let _ = h.op_block(p, &m, &label);
                 }
                 // a block is a successor of its parent only: neither the state it produced nor a
@@ -1338,7 +1512,6 @@ pub fn history(r: &mut Rng, w: &mut World, out: &mut Out, em: &Emphasis, stats: 
             None => break,
         }
     }
-    merge(stats, &h.stats);
 }
 
 pub fn merge(a: &mut BTreeMap<String, u64>, b: &BTreeMap<String, u64>) {
